@@ -1,7 +1,7 @@
 //! Builder call histories: representation, generator (G-OPS), interpreter against the real
 //! `ppp::v2::Builder`, and the reference history model R-BLD.
 
-use crate::engine::{fill, Tape};
+use crate::engine::{fill, gen_seed, Tape};
 use crate::gen;
 use crate::imp;
 use crate::oracle::enc;
@@ -290,6 +290,10 @@ fn shrink_len(len: &mut usize, seed: &mut u32) -> bool {
     }
 }
 
+pub fn shrink_val_pub(v: &mut Val) -> bool {
+    shrink_val(v)
+}
+
 fn shrink_val(v: &mut Val) -> bool {
     match v {
         Val::Bytes { len, seed } | Val::Tlv { len, seed, .. } | Val::TupleU8 { len, seed, .. } | Val::TupleType { len, seed, .. } | Val::Section { len, seed } => shrink_len(len, seed),
@@ -313,10 +317,17 @@ pub fn gen_len(t: &mut Tape, big_per_mille: u32) -> usize {
             _ => t.usize_in(65_536, 140_000),
         };
     }
-    match t.weighted(&[3, 5, 2]) {
+    match t.weighted(&[3, 5, 2, 2, 1, 1]) {
         0 => t.usize_in(0, 3),
         1 => t.usize_in(0, 48),
-        _ => *t.pick(&[255usize, 256, 257, 300, 1000, 4096]),
+        2 => *t.pick(&[255usize, 256, 257, 300, 1000, 4096]),
+        // every length up to a few hundred is equally likely; powers of two and their neighbours; a few KB
+        3 => t.usize_in(0, 600),
+        4 => {
+            let p = 1usize << t.usize_in(2, 13);
+            p + t.usize_in(0, 4) - 2
+        }
+        _ => t.usize_in(0, 9000),
     }
 }
 
@@ -335,7 +346,7 @@ pub fn gen_val(t: &mut Tape, big_per_mille: u32) -> Val {
                         0 => t.usize_in(0, 24),
                         _ => *t.pick(&[255usize, 256, 257]),
                     };
-                    (t.byte(), len, t.u32())
+                    (t.byte(), len, gen_seed(t))
                 })
                 .collect();
             let advance = t.usize_in(0, n + 1);
@@ -353,12 +364,12 @@ pub fn gen_val(t: &mut Tape, big_per_mille: u32) -> Val {
             let image = if w == 16 { image } else { image & ((1u128 << (8 * w)) - 1) };
             Val::Int { ty, image }
         }
-        1 => Val::Bytes { len: gen_len(t, big_per_mille), seed: t.u32() },
+        1 => Val::Bytes { len: gen_len(t, big_per_mille), seed: gen_seed(t) },
         2 => Val::Addr(gen_addr(t)),
-        3 => Val::Tlv { kind: t.byte(), len: gen_len(t, big_per_mille), seed: t.u32() },
-        4 => Val::TupleU8 { kind: t.byte(), len: gen_len(t, big_per_mille), seed: t.u32() },
-        5 => Val::TupleType { ty: t.below(12) as usize, len: gen_len(t, big_per_mille), seed: t.u32() },
-        6 => Val::Section { len: gen_len(t, big_per_mille), seed: t.u32() },
+        3 => Val::Tlv { kind: t.byte(), len: gen_len(t, big_per_mille), seed: gen_seed(t) },
+        4 => Val::TupleU8 { kind: t.byte(), len: gen_len(t, big_per_mille), seed: gen_seed(t) },
+        5 => Val::TupleType { ty: t.below(12) as usize, len: gen_len(t, big_per_mille), seed: gen_seed(t) },
+        6 => Val::Section { len: gen_len(t, big_per_mille), seed: gen_seed(t) },
         _ => Val::Type(t.below(12) as usize),
     }
 }
@@ -427,10 +438,105 @@ pub fn gen_history(t: &mut Tape, big_per_mille: u32) -> History {
                 }
                 Op::Payloads { vs, native }
             }
-            4 => Op::WriteTlv { kind: t.byte(), len: gen_len(t, big_per_mille), seed: t.u32() },
-            _ => Op::WriteTlvType { ty: t.below(12) as usize, len: gen_len(t, big_per_mille), seed: t.u32() },
+            4 => Op::WriteTlv { kind: t.byte(), len: gen_len(t, big_per_mille), seed: gen_seed(t) },
+            _ => Op::WriteTlvType { ty: t.below(12) as usize, len: gen_len(t, big_per_mille), seed: gen_seed(t) },
         };
         ops.push(op);
+    }
+    History { ctor, ops }
+}
+
+/// Histories built in phases around the 65535-byte threshold: [set_length] small writes [set_length] big writes that
+/// take the payload total to a chosen target just below / at / above 65535 (or far above) [set_length, possibly the
+/// same call twice] [small writes] [set_length] build. The uniform generator above reaches such shapes only rarely.
+pub fn gen_history_phased(t: &mut Tape) -> History {
+    let vc = 0x20 | t.below(2) as u8;
+    let ctor = if t.coin() {
+        Ctor::New { vc, afp: ((t.below(4) as u8) << 4) | t.below(3) as u8 }
+    } else {
+        Ctor::WithAddresses { vc, proto: t.below(3) as u8, addr: gen_addr(t) }
+    };
+    let base = match &ctor {
+        Ctor::New { .. } => 0usize,
+        Ctor::WithAddresses { addr, .. } => NEED[enc::family_code(addr) as usize],
+    };
+    let setlen = |t: &mut Tape| -> Op {
+        Op::SetLength(match t.weighted(&[3, 2, 2, 1]) {
+            0 => None,
+            1 => Some(*t.pick(&[0u16, 7, 12, 300, 65535])),
+            2 => Some(t.u16()),
+            _ => Some(t.below(40) as u16),
+        })
+    };
+    let sized = |t: &mut Tape, len: usize| -> Op {
+        let seed = gen_seed(t);
+        match t.below(7) {
+            0 => Op::Payload { v: Val::Bytes { len, seed }, by_ref: t.coin() },
+            1 => Op::Payload { v: Val::Section { len, seed }, by_ref: false },
+            2 => Op::Payload { v: Val::Tlv { kind: t.byte(), len: len.saturating_sub(3), seed }, by_ref: false },
+            3 => Op::Payload { v: Val::TupleU8 { kind: t.byte(), len: len.saturating_sub(3), seed }, by_ref: false },
+            4 => Op::WriteTlv { kind: t.byte(), len: len.saturating_sub(3), seed },
+            5 => Op::Payloads { vs: vec![Val::Bytes { len: len / 2, seed }, Val::Bytes { len: len - len / 2, seed: seed ^ 5 }], native: t.coin() },
+            _ => Op::WriteTlvType { ty: t.below(12) as usize, len: len.saturating_sub(3), seed },
+        }
+    };
+    let mut ops: Vec<Op> = Vec::new();
+    let mut total = base;
+    if t.chance(1, 2) {
+        ops.push(setlen(t));
+    }
+    for _ in 0..t.usize_in(0, 3) {
+        let v = gen_val(t, 0);
+        total += ref_size(&v);
+        ops.push(Op::Payload { v, by_ref: false });
+    }
+    if t.chance(1, 2) {
+        ops.push(setlen(t));
+    }
+    // big phase
+    let target: usize = match t.weighted(&[3, 3, 3, 2, 1]) {
+        0 => 65535 - t.usize_in(0, 20),
+        1 => 65535,
+        2 => 65536 + t.usize_in(0, 20),
+        3 => t.usize_in(66_000, 140_000),
+        _ => 131_072 + t.usize_in(0, 8) - 4,
+    };
+    let mut guard = 0;
+    while total < target && guard < 4 {
+        guard += 1;
+        let left = target - total;
+        // a single value may not exceed 65535 (else it is refused and the history ends there); one time in eight it does
+        let len = if left > 65_535 && !t.chance(1, 8) { t.usize_in(20_000, 65_535).min(left) } else { left };
+        let len = len.max(3);
+        ops.push(sized(t, len));
+        total += len;
+        if t.chance(1, 4) {
+            ops.push(Op::Reserve(t.usize_in(0, 70_000)));
+        }
+    }
+    match t.below(4) {
+        0 => {}
+        1 => ops.push(setlen(t)),
+        2 => {
+            let o = setlen(t);
+            ops.push(o.clone());
+            ops.push(o);
+        }
+        _ => {
+            ops.push(setlen(t));
+            ops.push(setlen(t));
+        }
+    }
+    for _ in 0..t.weighted(&[3, 2, 1]) {
+        let v = gen_val(t, 0);
+        ops.push(Op::Payload { v, by_ref: false });
+    }
+    if t.chance(1, 3) {
+        let o = setlen(t);
+        if t.chance(1, 3) {
+            ops.push(o.clone());
+        }
+        ops.push(o);
     }
     History { ctor, ops }
 }
@@ -450,14 +556,14 @@ fn retype(like: &Val, t: &mut Tape, big: u32) -> Val {
             let image = t.u128();
             Val::Int { ty: *ty, image: if w == 16 { image } else { image & ((1u128 << (8 * w)) - 1) } }
         }
-        Val::Bytes { .. } => Val::Bytes { len: gen_len(t, big), seed: t.u32() },
+        Val::Bytes { .. } => Val::Bytes { len: gen_len(t, big), seed: gen_seed(t) },
         Val::Addr(_) => Val::Addr(gen_addr(t)),
-        Val::Tlv { .. } => Val::Tlv { kind: t.byte(), len: gen_len(t, big), seed: t.u32() },
-        Val::TupleU8 { .. } => Val::TupleU8 { kind: t.byte(), len: gen_len(t, big), seed: t.u32() },
-        Val::TupleType { .. } => Val::TupleType { ty: t.below(12) as usize, len: gen_len(t, big), seed: t.u32() },
-        Val::Section { .. } => Val::Section { len: gen_len(t, big), seed: t.u32() },
+        Val::Tlv { .. } => Val::Tlv { kind: t.byte(), len: gen_len(t, big), seed: gen_seed(t) },
+        Val::TupleU8 { .. } => Val::TupleU8 { kind: t.byte(), len: gen_len(t, big), seed: gen_seed(t) },
+        Val::TupleType { .. } => Val::TupleType { ty: t.below(12) as usize, len: gen_len(t, big), seed: gen_seed(t) },
+        Val::Section { .. } => Val::Section { len: gen_len(t, big), seed: gen_seed(t) },
         Val::Type(_) => Val::Type(t.below(12) as usize),
-        Val::Tlvs { .. } => Val::Tlvs { items: vec![(t.byte(), t.usize_in(0, 9), t.u32())], advance: t.usize_in(0, 2) },
+        Val::Tlvs { .. } => Val::Tlvs { items: vec![(t.byte(), t.usize_in(0, 9), gen_seed(t))], advance: t.usize_in(0, 2) },
     }
 }
 
